@@ -597,11 +597,17 @@ XIncludeUtils::doXIncludeTEXTFileDOM(const XMLCh *href,
     XMLBuffer repository;
     while((nRead=stream->readBytes(buffer+nOffset, maxToRead-nOffset))>0){
         XMLSize_t bytesEaten=0;
-        XMLSize_t nCount = transcoder->transcodeFrom(buffer, nRead, xmlChars, maxToRead*2, bytesEaten, charSizes);
-        repository.append(xmlChars, nCount);
-        if(bytesEaten<nRead) {
-            nOffset=nRead-bytesEaten;
-            memmove(buffer, buffer+bytesEaten, nRead-bytesEaten);
+        // the bytes of a character that was split by the previous read are
+        // still at the start of the buffer
+        const XMLSize_t nAvail = nOffset + nRead;
+        XMLSize_t nCount = transcoder->transcodeFrom(buffer, nAvail, xmlChars, maxToRead*2, bytesEaten, charSizes);
+        // (a count of zero would make append() take xmlChars as a
+        //  null-terminated string)
+        if(nCount)
+            repository.append(xmlChars, nCount);
+        nOffset = nAvail - bytesEaten;
+        if(nOffset) {
+            memmove(buffer, buffer+bytesEaten, nOffset);
         }
     }
     return parsedDocument->createTextNode(repository.getRawBuffer());
